@@ -88,7 +88,10 @@ func (s *Server) Start(ctx context.Context, readyFunc func()) {
 		return
 	}
 
-	// Start listener go routine.
+	// Start listener go routine.  The accept loop is counted like a session: Drain must not
+	// return while it can still add one (a connection accepted between the shutdown request and
+	// the closing of the listener), and a session is never added to an idle wait group.
+	s.wg.Add(1)
 	go s.serve(ctx)
 	readyFunc()
 
@@ -105,6 +108,8 @@ func (s *Server) Start(ctx context.Context, readyFunc func()) {
 
 // serve is the listen/accept loop.
 func (s *Server) serve(ctx context.Context) {
+	defer s.wg.Done()
+
 	// Handle incoming connections.
 	var tempDelay time.Duration
 	for sid := 1; ; sid++ {
